@@ -8,6 +8,9 @@ TARGETS = UNIFY_FAMILY
 
 def run(rep):
     fw.deductive(rep, TARGETS, ['engine_terms'], ['terms.smt2'])
+    # the two iterator classes implement the semidet handle protocol (one answer False / no answer, store untouched)
+    from . import enginep
+    enginep.engine_deductive(rep, enginep.ITER_CLASSES, heap_lemmas=False)
     from .. import lemmas
     fw.add_smt(rep, lemmas.prove_frame(), 'spec.L-SU-FRAME')
     fw.add_smt(rep, lemmas.specsync(24 if rep.tier == 'quick' else 200, rep.seed), 'spec.sync', 'sync')
